@@ -15,7 +15,7 @@ from symx import ctx as _ctx
 from symx.scalars import ite
 from symx.array import SymArray
 from .common import symbolic_run, Vals
-from .C10 import Clauses
+from .refs_clauses import Clauses
 
 PROPERTY = "C17"
 LAYOUTS = {"a2": [2], "a1-a1": [1, 1], "a2-a1": [2, 1], "s-a2": [0, 2], "a3": [3], "a2-a2": [2, 2], "a1-a3": [1, 3]}
